@@ -160,7 +160,7 @@ class Gen:
 
     def sdgram(self):
         r = self.r
-        addr = r.randrange(4)
+        addr = r.choice([0, 0, 1, 2, 3, 4, 5, 6, 7, 8, 9])
         k = r.random()
         if k < 0.05:
             self.lines.append(f"adp.sdgram {addr} bad - - - - - none - -")
@@ -178,8 +178,10 @@ class Gen:
             if t < 0.4 and self.tokens:
                 k2 = r.randrange(self.tokens)
                 tok = f"s{k2}"
-                if r.random() < 0.7:
+                if r.random() < 0.5:
                     addr = self.tok_addr[k2]
+                elif self.tok_addr[k2] == 0:
+                    addr = r.choice([4, 5, 6, 7, 8, 9])     # a neighbour of the address the token was issued to
             elif t < 0.6:
                 tok = f"f{r.randrange(6)}"
         rand = hx(r)
@@ -265,7 +267,7 @@ def small_scope_client(depth):
     return cases
 
 
-SERVER_ALPHABET = ["N0", "N1", "T0", "T1x", "F", "R", "I", "Rt", "Tm", "K", "V"]
+SERVER_ALPHABET = ["N0", "N1", "T0", "T1x", "T4", "T5", "T8", "F", "R", "I", "Rt", "Tm", "K", "V"]
 
 
 def small_scope_server(depth):
@@ -286,6 +288,8 @@ def small_scope_server(depth):
                 lines.append(f"adp.sdgram 0 h 00000000000000c1 I 1 s0 {rnd} 4652007308841189376 H Icc00000000000001")
             elif s == "T1x":   # the same token from another address
                 lines.append(f"adp.sdgram 1 h 00000000000000c1 I 1 s0 {rnd} 4652007308841189376 H -")
+            elif s in ("T4", "T5", "T8"):   # the same token from a neighbour of address 0 (port+256, port^0x8000, v6-mapped)
+                lines.append(f"adp.sdgram {s[1]} h 00000000000000c1 I 1 s0 {rnd} 4652007308841189376 H -")
             elif s == "F":     # forged token
                 lines.append(f"adp.sdgram 0 h {B} I 1 f0 {rnd} none - -")
             elif s == "R":     # short-header datagram to an advertised CID
@@ -304,6 +308,34 @@ def small_scope_server(depth):
     return cases
 
 
+def token_oracle(case, out):
+    """retry clause of the property, read off the implementation's own outputs: a server that validates
+    addresses creates connection state only for a token it issued, and only when the datagram comes from
+    the very address (host AND port) the token was issued to"""
+    from harness.impl_adapter import AdapterImpl
+    if "adp.server 1" not in case[:2]:
+        return None
+    issued = {}
+    for line, o in zip(case, out):
+        t = line.split()
+        if t[0] != "adp.sdgram" or t[2] != "h":
+            continue
+        addr, tok = int(t[1]), t[6]
+        m = o.split()
+        if len(m) >= 3 and m[0] == "ok" and m[1] == "retry":
+            issued[m[2]] = addr
+        elif len(m) >= 2 and m[0] in ("ok", "err") and "new" in m[1:3]:
+            src = AdapterImpl.ADDRS[addr]
+            if tok not in issued:
+                return (f"retry-validating server created connection state for an Initial from {src} carrying "
+                        f"token {tok!r}, which it never issued")
+            to = AdapterImpl.ADDRS[issued[tok]]
+            if to != src:
+                return (f"retry token issued to {to} was accepted from {src}: connection state created for an "
+                        f"address the token was not issued to")
+    return None
+
+
 def run_stub(ctx, name, cases):
     from harness.impl_adapter import AdapterImpl
     impl_lines, all_lines = [], []
@@ -315,6 +347,9 @@ def run_stub(ctx, name, cases):
             impl.close()
         impl_lines += out
         all_lines += case
+        p = token_oracle(case, out)
+        if p:
+            ctx.witness(p, {"ops": case, "impl_output": out}, {"oracle": "token", "kind": "foreign-token-accepted"})
         nt = any("done=[" in o and "done=[]" not in o for o in out)
         ctx.count((name, tuple(case)), nt)
     model_lines = lean.run_driver(all_lines)
@@ -325,6 +360,43 @@ def run_stub(ctx, name, cases):
             ctx.disagreement(name, cases[ci][: oi + 1], ml, il, oi)
     ctx.cov["traces_validated_against_impl"] += len(cases)
     return len(mism)
+
+
+def encode_grid(ctx):
+    """retry.py encode_address against the model's encodeAddress (every port for one host, all byte-boundary
+    patterns for the others, unencodable ports), and — from the property text — distinct source addresses
+    must never share an encoding (else a token "issued to that address" is honoured from another one)"""
+    import socket
+    from aioquic.quic.retry import encode_address
+    pats = [0, 1, 0x0F, 0x10, 0x7F, 0x80, 0xA0, 0xFE, 0xFF]
+    grid = sorted({hi * 256 + lo for hi in pats for lo in pats} | {4000, 4256, 3744, 4000 ^ 0x8000, 4001})
+    hosts = ["10.0.0.1", "0.0.0.0", "255.255.255.255", "192.168.1.77", "::1", "::ffff:10.0.0.1", "2001:db8::ff00:42:8329"]
+    lines, outs, seen = [], [], {}
+    for hi, host in enumerate(hosts):
+        packed = socket.inet_pton(socket.AF_INET6 if ":" in host else socket.AF_INET, host)
+        ports = list(range(65536)) if hi == 0 else grid
+        for port in ports + [65536, 70000, 1 << 20]:
+            lines.append(f"adp.encaddr {packed.hex()} {port}")
+            try:
+                b = encode_address((host, port))
+            except Exception as e:
+                outs.append("err " + type(e).__name__)
+                continue
+            outs.append("ok " + b.hex())
+            if port < 65536:
+                other = seen.setdefault(b, (host, port))
+                if other != (host, port):
+                    ctx.witness(f"encode_address maps the distinct source addresses {other} and {(host, port)} to the same "
+                                f"bytes {b.hex()}: a retry token issued to one is valid from the other",
+                                {"encode_address": [list(other), [host, port]]},
+                                {"oracle": "token", "kind": "address-encoding-collision"})
+    model = lean.run_driver(lines)
+    for i, (l, o, m) in enumerate(zip(lines, outs, model)):
+        if o != m:
+            ctx.disagreement("encode-address", [l], m, o, 0)
+            break
+    ctx.cov["evaluations"] += len(lines)
+    ctx.cov["traces_validated_against_impl"] += 1
 
 
 # ------------------------------------------------------------------ real worlds
@@ -377,6 +449,35 @@ def run_worlds(ctx, r, n):
     return notes, len(mism)
 
 
+def run_quiet(ctx, r, seeds_per_case):
+    """writer operations separated by quiescence (see harness.impl_adapter.QuietWorld): every owner x sequence"""
+    from harness import impl_adapter as A
+    cases, impl_out = [], []
+    n = 0
+    for owner in A.QUIET_OWNERS:
+        for name in A.QUIET_SEQUENCES:
+            for _ in range(seeds_per_case):
+                seed = r.randrange(1 << 30)
+                w = A.QuietWorld(seed, owner, name).run()
+                n += 1
+                lines, outs = w.trace()
+                cases.append(lines)
+                impl_out += outs
+                ctx.count(("quiet", owner, name, seed), not any(s.get("oracle") == "harness" for _, s in w.problems))
+                for what, sig in w.problems:
+                    ctx.witness(what, {"quiet": {"seed": seed, "owner": owner, "sequence": name},
+                                       "trace_tail": lines[-12:]}, sig)
+    flat = [l for c in cases for l in c]
+    model_out = lean.run_driver(flat) if flat else []
+    mism = core.diff_streams(ctx, "adapter-quiet", cases, impl_out, model_out)
+    for m in mism[:3]:
+        if m[0] >= 0:
+            ci, oi, il, ml = m
+            ctx.disagreement("adapter-quiet", cases[ci][max(0, oi - 12): oi + 1], ml, il, oi)
+    ctx.cov["traces_validated_against_impl"] += len(cases)
+    return n
+
+
 def main(tier):
     ctx = core.Ctx("C19", tier)
     tree.activate()
@@ -412,10 +513,12 @@ def main(tier):
     n = 250 if not thorough else 5000
     run_stub(ctx, "adapter-random-wf", [gen_case(r, r.choice([8, 20, 40]), True) for _ in range(n)])
     run_stub(ctx, "adapter-random-any", [gen_case(r, r.choice([8, 20, 40]), False) for _ in range(n)])
+    encode_grid(ctx)
     ctx.cov["exhaustive"] = True
     ctx.notes["stub_s"] = round(time.time() - t0, 1)
     # (b) real mode
     t1 = time.time()
+    ctx.notes["quiet_worlds"] = run_quiet(ctx, r, 1 if not thorough else 8)
     notes, _ = run_worlds(ctx, r, 120 if not thorough else 4000)
     ctx.notes.update(notes)
     ctx.notes["real_s"] = round(time.time() - t1, 1)
@@ -428,7 +531,11 @@ def main(tier):
         "mode: 1-3 concurrent real clients against a real QuicServer (retry on in 40%) on a virtual-time loop, network "
         "dropping 0-30%, duplicating 0-30%, delaying 0-40 ms (reordering), PRNG order among timers due together; close by "
         "client, by server, by injected bad frame, by blackhole + idle timeout, at a PRNG time incl. mid-handshake; waiters "
-        "started before/after handshake and after termination; forged-token adversary. Non-trivial = a waiter completed "
+        "started before/after handshake and after termination; forged-token adversary that also replays every issued "
+        "token from the neighbours of its address (port +-256, high byte only, +1, other host, v6-mapped). Quiescence "
+        "worlds: lossless network, idle timeout 60 s, writer ops (write / write_eof / close) of client-initiated, "
+        "server-initiated and echoed streams separated by 2 s of virtual quiet, 9 op orders, peer reader checked after each. "
+        "encode_address vs model over all 65536 ports and byte-boundary grids of 7 hosts. Non-trivial = a waiter completed "
         "(stub) / connection terminated with >2 waiters (real); distinct by op-sequence or seed hash."
     )
     return ctx.finish()
@@ -441,6 +548,33 @@ def replay(path):
     logging.disable(logging.CRITICAL)
     rec = json.load(open(path))
     from harness import impl_adapter as A
+    rp = rec.get("replay", {}) if rec.get("kind") == "impl-witness" else {}
+    if "ops" in rp:                      # stub-mode witness of the retry-token oracle
+        impl = A.AdapterImpl()
+        try:
+            out = [impl.step(l) for l in rp["ops"]]
+        finally:
+            impl.close()
+        p = token_oracle(rp["ops"], out)
+        for l, o in zip(rp["ops"], out):
+            print(l, "\n    ", o[:160])
+        print("PROBLEM " + p if p else "no problem on this tree")
+        return 1 if p else 0
+    if "quiet" in rp:                    # writer operations separated by quiescence
+        q = rp["quiet"]
+        w = A.QuietWorld(q["seed"], q["owner"], q["sequence"]).run()
+        for what, sig in w.problems:
+            print("PROBLEM", sig, what)
+        if not w.problems:
+            print("no problem on this tree")
+        return 1 if w.problems else 0
+    if "encode_address" in rp:
+        from aioquic.quic.retry import encode_address
+        a, b = [tuple(x) for x in rp["encode_address"]]
+        ea, eb = encode_address(a), encode_address(b)
+        print(a, ea.hex(), b, eb.hex())
+        print("PROBLEM same encoding for distinct addresses" if ea == eb else "no problem on this tree")
+        return 1 if ea == eb else 0
     if rec.get("kind") == "impl-witness" and "seed" in rec.get("replay", {}):
         rp = rec["replay"]
         w = A.World(rp["seed"], rp["plan"])
